@@ -35,34 +35,39 @@ OptsPool == IF Pools = "full" THEN {<<t, c, FALSE>> : t \in BOOLEAN, c \in BOOLE
 
 VARIABLES case, pc
 vars == <<case, pc>>
-Init == /\ pc = "gen"
-        /\ \E a1 \in (IF Pools = "full" THEN {A, B} ELSE {A}), a2 \in (IF Pools = "full" THEN {A, B, <<>>} ELSE {B, <<>>}),
-              n1 \in (IF Pools = "full" THEN 0..3 ELSE {0, 2, 3}), n2 \in (IF Pools = "full" THEN 0..3 ELSE {0, 3}),
-              sel \in Sels, st \in StagePool, lm \in Limits, o \in OptsPool, point \in BOOLEAN, since \in {0, 75}, metric \in BOOLEAN :
-             \* point: the window is the single instant Base + 25, on which no frame lies - nothing may be printed
-             /\ (point => st = <<>> /\ lm = 0 - 1 /\ since = 0 /\ ~metric)
-             \* since: the window is [End - 75, End] given as --end and --since (frames at +30 and +40 fall inside, +10 and +20 outside)
-             /\ (since > 0 => lm = 0 - 1 /\ o = <<TRUE, TRUE, FALSE>>)
-             \* metric: the query is count_over_time(<the log query> [1m]) - the command must fail and print nothing
-             /\ (metric => since = 0 /\ lm = 0 - 1 /\ o = <<TRUE, TRUE, FALSE>> /\ st \in {<<>>, <<Line("eq", <<45, 49>>)>>})
-             /\ case = [ctrs |-> <<Ctr(1, a1, n1), Ctr(2, a2, n2)>>, sel |-> sel, stages |-> st, start |-> IF point THEN <<Base + 25, 0>> ELSE Start,
-                         end |-> IF point THEN <<Base + 25, 0>> ELSE End, limit |-> lm, opts |-> o, since |-> since, metric |-> metric]
+\* (the case is chosen by an ACTION: TLC enumerates initial states on one thread, successors on all)
+CaseOf(a1, a2, n1, n2, sel, st, lm, o, point, since, metric) ==
+  [ctrs |-> <<Ctr(1, a1, n1), Ctr(2, a2, n2)>>, sel |-> sel, stages |-> st, start |-> IF point THEN <<Base + 25, 0>> ELSE Start,
+   end |-> IF point THEN <<Base + 25, 0>> ELSE End, limit |-> lm, opts |-> o, since |-> since, metric |-> metric]
+Init == pc = "init" /\ case = CaseOf(A, B, 0, 0, <<>>, <<>>, 0 - 1, <<TRUE, TRUE, FALSE>>, FALSE, 0, FALSE)
+Choose == /\ pc = "init" /\ pc' = "gen"
+          /\ \E a1 \in (IF Pools = "full" THEN {A, B} ELSE {A}), a2 \in (IF Pools = "full" THEN {A, B, <<>>} ELSE {B, <<>>}),
+                n1 \in (IF Pools = "full" THEN 0..3 ELSE {0, 2, 3}), n2 \in (IF Pools = "full" THEN 0..3 ELSE {0, 3}),
+                sel \in Sels, st \in StagePool, lm \in Limits, o \in OptsPool, point \in BOOLEAN, since \in {0, 75}, metric \in BOOLEAN :
+               \* point: the window is the single instant Base + 25, on which no frame lies - nothing may be printed
+               /\ (point => st = <<>> /\ lm = 0 - 1 /\ since = 0 /\ ~metric)
+               \* since: the window is [End - 75, End] given as --end and --since (frames at +30 and +40 fall inside, +10 and +20 outside)
+               /\ (since > 0 => lm = 0 - 1 /\ o = <<TRUE, TRUE, FALSE>>)
+               \* metric: the query is count_over_time(<the log query> [1m]) - the command must fail and print nothing
+               /\ (metric => since = 0 /\ lm = 0 - 1 /\ o = <<TRUE, TRUE, FALSE>> /\ st \in {<<>>, <<Line("eq", <<45, 49>>)>>})
+               /\ case' = CaseOf(a1, a2, n1, n2, sel, st, lm, o, point, since, metric)
 Export == pc = "gen" /\ pc' = "done" /\ UNCHANGED case /\ PrintT(<<"CASE", ToJson([in |-> case @@ [kind |-> "cmd"]])>>)
-Next == Export
+Next == Choose \/ Export
 
 WellFormed == CaseWellFormed(case)
-Pr == Printed(case)
-Unlimited == Printed([case EXCEPT !.limit = 0 - 1])
+\* (LET: TLC evaluates a LET-bound value once per state, a top-level definition at every mention)
 FromSelectedInWindow ==
-  \A k \in DOMAIN Pr : \E i \in DS!Selected(case.ctrs, case.sel) : \E j \in DOMAIN case.ctrs[i].frames :
-     LET f == case.ctrs[i].frames[j] IN f.msg = Pr[k].msg /\ f.ts = Pr[k].ts /\ InWindow(f.ts, WStart(case), case.end) /\ (Pr[k].ctr = case.ctrs[i].name \/ (Pr[k].ctr = <<>> /\ \E s \in DOMAIN case.stages : case.stages[s].t \in {"drop", "keep"}))
-InTimeOrderOnce == \A k, m \in DOMAIN Pr : k < m => SysTsLt(Pr[k].ts, Pr[m].ts)
-LimitIsPrefix == IF case.limit > 0 /\ Len(Unlimited) > case.limit THEN Pr = SubSeq(Unlimited, 1, case.limit) ELSE Pr = Unlimited
+  LET Pr == Printed(case) sel == DS!Selected(case.ctrs, case.sel) IN
+  \A k \in DOMAIN Pr : \E i \in sel : \E j \in DOMAIN case.ctrs[i].frames :
+     LET f == case.ctrs[i].frames[j] IN f.msg = Pr[k].msg /\ f.ts = Pr[k].ts /\ InWindow(f.ts, WStart(case), case.end)
+       /\ (Pr[k].ctr = case.ctrs[i].name \/ (Pr[k].ctr = <<>> /\ \E s \in DOMAIN case.stages : case.stages[s].t \in {"drop", "keep"}))
+InTimeOrderOnce == LET Pr == Printed(case) IN \A k, m \in DOMAIN Pr : k < m => SysTsLt(Pr[k].ts, Pr[m].ts)
+LimitIsPrefix == LET Pr == Printed(case) Unlimited == Printed([case EXCEPT !.limit = 0 - 1]) IN
+                 IF case.limit > 0 /\ Len(Unlimited) > case.limit THEN Pr = SubSeq(Unlimited, 1, case.limit) ELSE Pr = Unlimited
 \* filter-then-merge = merge-then-filter (the stages of the pools are stateless)
 MergeCommutes ==
   LET sel == DS!Selected(case.ctrs, case.sel)
-      per(i) == LogResult(<<>>, case.stages, CtrRecords(case.ctrs, i, WStart(case), case.end))
-      ids == UNION {{per(i)[k].id : k \in DOMAIN per(i)} : i \in sel}
+      ids == UNION {LET per == LogResult(<<>>, case.stages, CtrRecords(case.ctrs, i, WStart(case), case.end)) IN {per[k].id : k \in DOMAIN per} : i \in sel}
       all == LogResult(<<>>, case.stages, Merged(case))
   IN {all[k].id : k \in DOMAIN all} = ids
 =============================================================================
